@@ -247,7 +247,7 @@ let rec mixed_strings f2s = function
 | v :: r ->
   (match raw_to_string f2s v with
    | Some s -> s :: (mixed_strings f2s r)
-   | None -> mixed_strings f2s r)
+   | None -> [] :: (mixed_strings f2s r))
 
 (** val finalize : (coq_Z -> str) -> colbuf -> column result **)
 
